@@ -154,7 +154,7 @@ def c04(tier):
     f = ex.submit(ld_model_check, run, configs)
     f2 = ex.submit(ld_fidelity, run, 24 if tier == "quick" else 200)
     f3 = ex.submit(system_model_check, run, tier)
-    ao_conformance(run, "C04", 1600 if tier == "quick" else 40000)
+    ao_conformance(run, "C04", 1600 if tier == "quick" else 20000)
     system_conformance(run, "C04", 600 if tier == "quick" else 12000)
     f.result()
     f2.result()
@@ -182,7 +182,7 @@ def c05(tier):
   with cf.ThreadPoolExecutor(2) as ex:
     f = ex.submit(liveness)
     f2 = ex.submit(ld_fidelity, run, 16 if tier == "quick" else 100, 2, "ProgF")
-    ao_conformance(run, "C05", 1600 if tier == "quick" else 40000, kinds=("random", "pct", "guided", "pct"))
+    ao_conformance(run, "C05", 1600 if tier == "quick" else 20000, kinds=("random", "pct", "guided", "pct"))
     f.result()
     f2.result()
   return run.finish()
@@ -273,7 +273,7 @@ def c16(tier):
       raise common.MachineryError("AOSeq.tla violates %s" % r.violated)
     run.add(states=r.distinct, transitions=r.generated, tlc_runs=["AOSeq cap=%d ops<=%d: %d distinct states; Bounded, TokenPerEvent, NewEventKept, FifoWhenNoOverflow hold" % (cap, m, r.distinct)])
   # (B1) recorded op sequences on the real LockingDeque
-  n = 4000 if tier == "quick" else 60000
+  n = 4000 if tier == "quick" else 30000
   chunk = (n + 63) // 64
   with mp.get_context("fork").Pool(16) as pool:
     traces = [t for part in pool.map(_c16_work, [(common.seed(), lo, min(n, lo + chunk)) for lo in range(0, n, chunk)]) for t in part]
